@@ -35,7 +35,10 @@ func runDownFamily(s *Sim, prop string) {
 	t := s.T
 	s.Family = "downstream-steady"
 	bc := BrokerCfg{AutoReq: true, AutoAck: true, AutoPong: true, AutoCallAck: true, AutoAckComplete: !t.Bool("manual-ackcomplete", 1, 3)}
+	// two streams of one session of one node (same source node id and session id, different stream ids)
+	bc.SharedSessions = t.Bool("shared-sessions", 1, 4)
 	y := newSys(s, bc)
+	y.ScribbleReads = t.Bool("application-edits-returned-chunks", 1, 4)
 	if t.Bool("json", 1, 4) {
 		y.Enc = iscp.EncodingNameJSON
 	}
